@@ -53,7 +53,16 @@ def matrixHandler : Handler := fun payload impl =>
           else "FAIL the procedures of a fresh interpreter differ from Generated/Builtins (Register* calls + bootstrap.pl): expected " ++ procsLine)
   else
     let (pred, _) := headWord rest
-    ("-", judgeOutcome (pred == "throw") impl)
+    let (w, _) := headWord impl
+    if w == "CRASH" || w == "HANG" || w == "HARNESS-PANIC" then ("-", judgeOutcome false impl)
+    else
+      -- two runs of the goal on one interpreter: all answers (≤ 20), then once more
+      match impl.splitOn " ; " with
+      | [r1, r2] =>
+        let v1 := judgeOutcome (pred == "throw") r1
+        let v2 := judgeOutcome (pred == "throw") r2
+        ("-", if v1 != "ok" then v1 else if v2 != "ok" then "FAIL second call: " ++ (v2.drop 5).toString else "ok")
+      | _ => ("-", "FAIL unexpected harness output: " ++ impl)
 
 /-! ## c05.text -/
 
@@ -62,14 +71,18 @@ def textHandler : Handler := fun _ impl =>
   if w == "CRASH" || w == "HANG" || w == "HARNESS-PANIC" then ("-", judgeOutcome false impl)
   else
     match impl.splitOn " ; " with
-    | [q, e] =>
+    | [q, e, r] =>
       let (qw, qr) := headWord q
       let (ew, er) := headWord e
-      if qw != "q" || ew != "e" then ("-", "FAIL unexpected harness output")
+      let (rw, rr) := headWord r
+      if qw != "q" || ew != "e" || rw != "r" then ("-", "FAIL unexpected harness output")
       else
         let vq := judgeOutcome true qr
         let ve := judgeOutcome true er
-        ("-", if vq != "ok" then "FAIL Query: " ++ (vq.drop 5).toString else if ve != "ok" then "FAIL Exec: " ++ (ve.drop 5).toString else "ok")
+        let vr := judgeOutcome true rr
+        ("-", if vq != "ok" then "FAIL Query: " ++ (vq.drop 5).toString
+              else if ve != "ok" then "FAIL Exec: " ++ (ve.drop 5).toString
+              else if vr != "ok" then "FAIL read/1: " ++ (vr.drop 5).toString else "ok")
     | _ => ("-", "FAIL unexpected harness output")
 
 /-! ## c05.parse: the token-level reader model against the real Parser -/
